@@ -14,7 +14,7 @@ for arg in sys.argv[1:]:
     os.makedirs(dst, exist_ok=True)
     for f in ('patch.diff', 'equiv.py', 'notes.md'):
         shutil.copy(os.path.join(src, f), os.path.join(dst, f))
-    meta = {'kind': 'behaviour-preserving refactor, round R (fresh sub-agent asked for a substantial maintainer-style clean-up; differential test '
+    meta = {'kind': 'behaviour-preserving refactor, round R/S/U (fresh sub-agent asked for a maintainer-style change that preserves the observable behaviour; differential test '
                     'equiv.py against the original source)',
             'checks': checks.split(','), 'summary': open(os.path.join(src, 'notes.md')).read()[:3000]}
     json.dump(meta, open(os.path.join(dst, 'meta.json'), 'w'), indent=1)
